@@ -128,7 +128,7 @@ CHECKS = {
             "and repeated inputs, gc and graph allocation bursts to recycle id()s) are recorded; every call's result record must equal the "
             "record a fresh interpreter computes for the same input. K-CACHE records for each memo dict the graph it was made for and "
             "re-computes every lookup answered from a dict inherited through a recycled id.",
-            "Histories are sampled; id() recycling is provoked and counted, not forced. Messages of exceptions are compared with addresses masked.",
+            "Histories are sampled; id() recycling is provoked and counted, not forced. Failing calls are compared by exception type (the wording of ANTLR syntax errors depends on its prediction caches; variants are recorded in the evidence).",
             "DESIGN.md 3/C11"),
     "C12": ("exploration",
             "runtime monitoring: stress with schedule perturbation (K-SCHED: switch interval 1us + yield injection at sys.monitoring LINE / PY_START events in the code touching shared caches), client-boundary history checked offline against sequential goldens, K-CACHE",
